@@ -492,10 +492,21 @@ class RtrEngine(object):
                 if xy not in tables:
                     tables[xy] = self.gen_entries()[:30]
             w.probe("several_chips_in_one_call")
+        if tables is None and not heal and \
+                getattr(self, "last_tables", None) and t.draw(5) == 0:
+            # the very tables of an earlier load again (a re-run), after the
+            # machine's staging buffer - scratch space that loading an
+            # application uses too - has held other things
+            tables = self.last_tables
+            multi = len(tables) > 1
+            w.probe("same_tables_reloaded")
+            for ch in m.chips.values():
+                ch.mem.write(m.sdram_sys, t.bytes(64) * 8)
         if tables is None:
             xy = self.chip_list[t.draw(len(self.chip_list))]
             tables = {xy: self.gen_entries() if not heal else
                       self.gen_entries()[:50] or self.gen_entries_nonempty()}
+        self.last_tables = tables
         before = {xy: self.router_snapshot(m.chips[xy]) for xy in m.chips}
         inject = not heal and t.chance(0.1)
         self.inject_fail = inject
